@@ -169,7 +169,7 @@ func (s *routeSchema) newMuxSteps(rules []boundRule, nonEmpty bool, res *c16Resu
 
 func runC16(c *Ctx) {
 	r := c.Run
-	r.Rule("(a) every template with 1..2 (thorough 3) segments over literals {a,bb,a.b,a-b,v1}, variable forms incl. nested field paths, verbs; (b) every single-character edit (delete/insert/replace from \"{}=/*:.a\") of those, classified by the reference parser; (c) every body × response_body selector; (d) nested additional bindings; (e) conflicting bindings (same path: same verb, '*' vs verb, verb vs '*', re-declared implicit path) — each on an empty mux and on a mux already serving another service, from service config and from annotations; distinct = (expectation class, outcome) × template shape")
+	r.Rule("(a) every template with 1..2 (thorough 3) segments over literals {a,bb,a.b,a-b,v1}, variable forms incl. nested field paths, verbs; (b) every single-character edit (delete/insert/replace from \"{}=/*:.a\") of those, classified by the reference parser; (c) every body × response_body selector; (d) nested additional bindings; (e) conflicting bindings (same path: same verb, '*' vs verb, verb vs '*', re-declared implicit path after and before its owner is registered, across services and inside one service) — each on an empty mux and on a mux already serving another service, from service config and from annotations; distinct = (expectation class, outcome) × template shape")
 	r.Assume("grey zone (either outcome, but no panic and atomic): nested variables, literals/idents not starting with a letter, '**' not last, a field bound twice, variables on message/repeated/map fields, scalar body / non-message response_body selectors, '*'-kind vs verb conflicts")
 
 	schema, err := newRouteSchemaMulti("vt", 2)
@@ -307,6 +307,7 @@ func runC16(c *Ctx) {
 	}
 	c16Selectors(c, schema)
 	c16Conflicts(c, schema)
+	c16ImplicitBeforeOwner(c, schema)
 }
 
 func tmplClassOK(t tmpl.T) bool { return len(t.Segs) > 0 }
@@ -517,6 +518,81 @@ func c16Conflicts(c *Ctx, schema *routeSchema) {
 	}
 }
 
+// c16ImplicitBeforeOwner: a rule of one method claims the implicit /Service/Method path of a
+// method that is registered AFTER it (a later service on the same mux, or a later method of
+// the same service). google.api.http does not say who wins, so accept/reject are both fine,
+// but registration must return (no panic), a rejection must be atomic, and the claiming
+// method's own implicit route and every earlier route must still be served.
+func c16ImplicitBeforeOwner(c *Ctx, schema *routeSchema) {
+	r := c.Run
+	single, err := newRouteSchema("vq", "S", 3, nil)
+	if err != nil {
+		panic(err)
+	}
+	for _, k := range []string{"post", "get", "put", "*"} {
+		// (i) two services: S1.M0 claims S2's implicit path; S1 registered first, then S2.
+		first := dyn.Rule{Kind: k, Path: schema.methods[1]}
+		res, m, impl := c16Register(schema, dyn.Rule{Kind: "get", Path: "/own/{s}"}, &first, true)
+		r.Eval(1)
+		cs := c16Case{Kind: "conflict", Rule: dyn.Rule{Kind: "get", Path: "/own/{s}"}, Other: &first, NonEmpty: true}
+		key := "conflict implicit-path-claimed-before-owner kind=" + k
+		outcome := "accepted"
+		switch {
+		case res.panicked:
+			outcome = "panic"
+			r.Violation(report.Violation{Oracle: "register-panic", Key: "register-panic " + key, Case: cs, Note: res.err})
+		case !res.accepted:
+			outcome = "rejected"
+			if res.before != res.after {
+				r.Violation(report.Violation{Oracle: "rejection-not-atomic", Key: "rejection-not-atomic " + key, Case: cs})
+			}
+		}
+		if m != nil && !res.panicked {
+			impl.reset()
+			if sr := serveSimple(m, "POST", schema.methods[0], ""); sr.Panicked || impl.n != 1 || impl.method != schema.methods[0] {
+				r.Violation(report.Violation{Oracle: "rejection-damaged-routes", Key: "rejection-damaged-routes " + key, Case: cs, Note: fmt.Sprintf("POST %s (the first service's own implicit route) -> status=%d dispatched=%d", schema.methods[0], sr.Code, impl.n)})
+			}
+			r.Eval(1)
+		}
+		r.Outcome("conflict:implicit-before-owner->" + outcome)
+		r.Distinct("conflict|implicit-before-owner|two-services|" + k + "|" + outcome)
+
+		// (ii) one service, three methods: M0 claims M1's and M2's implicit paths.
+		for _, target := range []int{1, 2} {
+			rules := []boundRule{{M: 0, Rule: dyn.Rule{Kind: k, Path: single.methods[target]}}}
+			var rerr error
+			var m2 *larking.Mux
+			var impl2 *recImpl
+			p, txt := guard(func() { m2, impl2, rerr = single.newMux(rules, nil) })
+			r.Eval(1)
+			cs := map[string]any{"kind": "conflict", "service": "vq.S (3 methods)", "rule_on": single.methods[0], "rule": rules[0].Rule, "claims_implicit_path_of": single.methods[target]}
+			key := fmt.Sprintf("conflict implicit-path-claimed-by-earlier-method kind=%s target=M%d", k, target)
+			if pe, ok := rerr.(*panicError); ok {
+				p, txt = true, pe.text
+			}
+			outcome := "accepted"
+			switch {
+			case p:
+				outcome = "panic"
+				r.Violation(report.Violation{Oracle: "register-panic", Key: "register-panic " + key, Case: cs, Note: txt})
+			case rerr != nil:
+				outcome = "rejected"
+			default:
+				// accepted: M0's own implicit path and the third method's must be served by their owners
+				for _, mi := range []int{0, 3 - target} {
+					impl2.reset()
+					if sr := serveSimple(m2, "POST", single.methods[mi], ""); sr.Panicked || impl2.n != 1 || impl2.method != single.methods[mi] {
+						r.Violation(report.Violation{Oracle: "acceptance-damaged-routes", Key: "acceptance-damaged-routes " + key, Case: cs, Note: fmt.Sprintf("POST %s -> status=%d dispatched=%d method=%s", single.methods[mi], sr.Code, impl2.n, impl2.method)})
+					}
+					r.Eval(1)
+				}
+			}
+			r.Outcome("conflict:implicit-before-owner->" + outcome)
+			r.Distinct("conflict|implicit-before-owner|one-service|" + k + "|" + outcome)
+		}
+	}
+}
+
 func replayC16(c *Ctx, v report.Violation) {
 	var tc c16Case
 	if !remarshal(v.Case, &tc) {
@@ -535,6 +611,7 @@ func replayC16(c *Ctx, v report.Violation) {
 		c16Selectors(&sub, schema)
 	case "conflict":
 		c16Conflicts(&sub, schema)
+		c16ImplicitBeforeOwner(&sub, schema)
 	default:
 		exp, _, why := c16ExpectTemplate(tc.Rule.Path)
 		fmt.Printf("replay: reference expectation=%s (%s)\n", exp, why)
